@@ -278,3 +278,88 @@ SPECS["C07"] = dict(
     trusted_base=_HCOBS_TB,
     assumptions=_HCOBS_ASSUME,
 )
+
+SPECS["C15"] = dict(
+    title="SlidingDeque behaves like a double-ended queue with a contiguous view",
+    lean_modules=["Woodpile.Props.C15"],
+    theorems=[
+        "Woodpile.Props.C15.inv_iff",
+        "Woodpile.Props.C15.checkRep_iff_inv",
+        "Woodpile.Props.C15.rep_inv_init",
+        "Woodpile.Props.C15.refines_list",
+        "Woodpile.Props.C15.rep_inv",
+        "Woodpile.Props.C15.no_panic",
+        "Woodpile.Props.C15.run_refines_list",
+        "Woodpile.Props.C15.run_from_new",
+        "Woodpile.Props.C15.run_snoc",
+    ],
+    families=[dict(name="sdeque", quick=3000, thorough=200000)],
+    technique="Lean 4 proof (representation invariant = check_rep, per-operation refinement of a List deque, induction over "
+              "operation sequences) + model/implementation correspondence on Vec- and SmallVec-backed deques",
+    design_ref="DESIGN.md section 5, C15",
+    level_text=("Kernel-checked theorems about a Lean model of sliding_deque::SlidingDeque (Woodpile.SlidingDeque: every public "
+                "method incl. maybe_slide/slide and every check_rep evaluation, panics = none) for every element type and every "
+                "operation sequence: each operation returns what a reference List deque returns and leaves the same view "
+                "(refines_list), the invariant consumed <= len/2 and (empty -> consumed = 0) is exactly check_rep and is preserved "
+                "(rep_inv), hence no check_rep or bounds check fails (no_panic), lifted to all operation lists from new()/From "
+                "(run_refines_list). The model is tied to /repo by running the real SlidingVec<u32> and SlidingSmallVec<[u32;4]> "
+                "and the compiled model on all op sequences up to length 6 (7 thorough) over an 11-symbol alphabet plus random "
+                "sequences up to 200 ops and diffing return values, slice views and lengths; a direct oracle compares both real "
+                "deques with std VecDeque and checks the space bound on the real representation."),
+    level_note=("Trusted: Lean kernel + 3 standard axioms; the correspondence harness and its generators; Vec/SmallVec behind "
+                "PushTruncateContainer (push/pop/truncate/slice) are modelled as a List. The space bound is not observable through "
+                "the public API proper: the harness is built with debug assertions on, so a violation is a check_rep panic "
+                "(reported as an oracle violation), and it is additionally read off the derived Debug output when that has the "
+                "expected shape."),
+    trusted_base=["std Vec / smallvec SmallVec implement push, pop, truncate and slices as a sequence (PushTruncateContainer)"],
+    assumptions=["64-bit usize (lengths and advance counts are unbounded naturals in the model)",
+                 "slide() is modelled as compiled with debug assertions; the release-build early return yields the same state"],
+)
+
+SPECS["C16"] = dict(
+    title="SortedDeque behaves like an ordered map with append-only insertion",
+    lean_modules=["Woodpile.Props.C16"],
+    theorems=[
+        "Woodpile.Props.C16.refines_ordered_map",
+        "Woodpile.Props.C16.run_refines_ordered_map",
+        "Woodpile.Props.C16.run_refines_from_container",
+        "Woodpile.Props.C16.no_panic_valid",
+        "Woodpile.Props.C16.ends_live",
+        "Woodpile.Props.C16.push_panics_iff",
+        "Woodpile.Props.C16.erased_push_noop",
+        "Woodpile.Props.C16.reference_sorted",
+        "Woodpile.Props.C16.present_key_found",
+        "Woodpile.Props.C16.removed_key_not_found",
+        "Woodpile.Props.C16.first_last_extreme",
+        "Woodpile.Props.C16.pair_convention_lawful",
+        "Woodpile.Props.C16.whole_item_lawful_of_distinct_keys",
+        "Woodpile.Props.C16.whole_item_needs_distinct_keys",
+        "Woodpile.Props.C16.pair_run_refines",
+    ],
+    families=[dict(name="sorted", quick=4000, thorough=200000)],
+    technique="Lean 4 proof (ghost-list representation invariant, correctness of the modelled std binary search on sorted "
+              "lists, per-operation refinement of a sorted association list, induction over operation sequences) + "
+              "model/implementation correspondence for both item conventions on Vec- and SmallVec-backed deques",
+    design_ref="DESIGN.md section 5, C16",
+    level_text=("Kernel-checked theorems about a Lean model of sliding_deque::SortedDeque (Woodpile.SortedDeque, layered on the "
+                "C15 SlidingDeque model; both check_reps, the push assertion, cleanup_front/back, and slice::binary_search_by "
+                "written out as core 1.95 implements it and proved correct on sorted lists), generic in a comparator record whose "
+                "laws are explicit hypotheses: for every valid operation sequence the results equal those of a reference ordered "
+                "map (sorted list of present items), the run panics iff a push is not strictly greater than the last item, erased "
+                "pushes are no-ops, both ends stay live; the reference is sorted, finds present keys, never finds removed ones, and "
+                "first/last are min/max. The (Key, Option<Value>) convention satisfies the laws; whole-item ordering does when keys "
+                "in play are distinct, and a proved counter-example shows the law is necessary (observation O2). The model is tied "
+                "to /repo by running the real SortedDeque (pairs and a whole-item type, Vec and SmallVec<[_;4]>) and the compiled "
+                "model on all sequences up to length 5 (6 thorough) over a 13-symbol/4-key alphabet plus random histories up to "
+                "200 ops, diffing results, iteration, first/last/is_empty and probe lookups after every op; a direct oracle compares "
+                "with std BTreeMap and checks that exactly the order-violating pushes panic."),
+    level_note=("Trusted: Lean kernel + 3 standard axioms; the correspondence harness and its generators. std's "
+                "binary_search_by is re-modelled from its source (core 1.95), not verified against the compiled std; the "
+                "theorems only need it to be a correct search on sorted slices. For whole-item ordering the theorem covers "
+                "histories whose live pushes have distinct keys (a fixed key -> item assignment); the harness stays in that "
+                "regime and silences the oracle outside it."),
+    trusted_base=["std slice::binary_search_by behaves as its core 1.95 source (re-modelled in Woodpile.SortedDeque.binarySearchBy)",
+                  "std Vec / smallvec SmallVec implement push, pop, truncate and slices as a sequence (PushTruncateContainer)"],
+    assumptions=["64-bit usize (cleanup_front's usize::MAX default is 2^64-1 in the model; lengths are unbounded naturals)",
+                 "SortedDeque::new(container, marker) is given a strictly sorted container with live ends (it is not checked by the code)"],
+)
